@@ -539,10 +539,6 @@ def parse_call_tail(ts):
     # if rt is a function type (possibly ptr to), the return type is its ret
     if rt[0] == 'func':
         ret = rt[1]
-    elif rt[0] == 'ptr' and rt[1][0] == 'func' and ts.peek()[0] in ('gid', 'lid') and ts.peek(1)[1] == '(':
-        # ambiguous: 'call void (i8*)* %x(...)' vs returning pointer-to-function. LLVM prints full
-        # function pointer type only for varargs / when needed; treat as callee type.
-        ret = rt[1][1]
     else:
         ret = rt
     k, v = ts.next()
@@ -719,7 +715,7 @@ def parse_instr(line, mod):
             cases.append((cv[1][1], strip_name(ts.next()[1])))
         return Instr(None, 'switch', (v, d, cases), text)
     if op == 'ret':
-        if ts.accept('void'):
+        if ts.peek()[1] == 'void' and ts.peek(1)[0] is None:
             return Instr(None, 'ret', (None,), text)
         return Instr(None, 'ret', (parse_typed_value(ts),), text)
     if op == 'unreachable':
@@ -858,6 +854,20 @@ def parse_module(text):
     return mod
 
 
+def _root_global(v):
+    """name of the global a constant expression ultimately points at"""
+    while v is not None:
+        if v[0] == 'glob':
+            return v[1]
+        if v[0] == 'cexpr' and v[1] == 'getelementptr':
+            v = v[3][1]
+        elif v[0] == 'cexpr' and v[1] in CAST_OPS:
+            v = v[2][1]
+        else:
+            return None
+    return None
+
+
 def parse_global(nm, rest, mod, line):
     rest = strip_meta(rest)
     # strip trailing ", align N", ", comdat", ", section"
@@ -892,7 +902,8 @@ def parse_global(nm, rest, mod, line):
             if ev[0] == 'agg':
                 prio = ev[1][0][1][1]
                 fn = ev[1][1][1]
-                mod.ctors.append((prio, fn[1] if fn[0] == 'glob' else None))
+                data = ev[1][2][1] if len(ev[1]) > 2 else None
+                mod.ctors.append((prio, fn[1] if fn[0] == 'glob' else None, _root_global(data)))
 
 
 def parse_function(header, body):
